@@ -197,6 +197,25 @@ def unitsDisagree (ph : PH) (first : Nat) (ms : List Message) : Bool :=
   (ms.filter (·.num == ph.mesgNum)).any fun m =>
     decide ((lapStartTime ph m + u32 (fval m ph.totalTimerTime)) % 2 ^ 32 < ts) != decide (lapEndTime ph m < ts)
 
+def sortedLtB : List Nat → Bool
+  | a :: b :: rest => a < b && sortedLtB (b :: rest)
+  | _ => true
+
+/-- the records' timestamps strictly increase in file order: the activity is recorded forward in time. The reading of
+"a lap position points into a stretch" by time (`noLeakB`) presupposes it — with two records carrying the same or a
+decreasing timestamp "before the first revealed record" in time and in file order are different things. -/
+def recTimesIncB (ms : List Message) : Bool := sortedLtB ((ms.filter isRecord).map tstamp)
+
+/-- laps (sessions) carry at most one field of each of the four position numbers (`RemoveFieldByNum` removes the first
+field with a number only; same restriction as `UniqueNum` for the records) -/
+def lapUniqueB (ph : PH) (ms : List Message) : Bool :=
+  ms.all fun m => !(m.num == ph.mesgNum) ||
+    (uniqueNumB ph.sLat m && uniqueNumB ph.sLong m && uniqueNumB ph.eLat m && uniqueNumB ph.eLong m)
+
+/-- the records carry at most one position_lat and one position_long field -/
+def recUniqueB (ms : List Message) : Bool :=
+  ms.all fun m => !isRecord m || (uniqueNumB fnRecordPositionLat m && uniqueNumB fnRecordPositionLong m)
+
 /-- the situation of finding KF-C20-2 (fixed by /repo commit bd79ab7): NO record is left revealed by the end stage
 (`last` reaches back to the first record). Before the fix `updateEndPosition` ran with `recordIndex = -1`, whose
 timestamp reads as 0xFFFFFFFF: only the last lap/session was handled and every earlier one kept all its positions. -/
